@@ -150,6 +150,22 @@ theorem C03_snaplen_history : ∀ row ∈ wiring, ∀ n, (row.bpf, n) ∈ snapLe
     Proofs.Snap.compatible_snap_history row (wiring_compatible row hrow) vpn hr st fs (snaplen_facts.2.2 _ hn).1
       (snaplen_facts.2.2 _ hn).2 hw
 
+/-- **C03 from the wire.**  Linux removes an outer 802.1Q / 802.1ad tag from a received frame before a packet socket
+    sees it, so the filter and the processor would take a tagged frame — of any VLAN on a trunk port — for an
+    untagged one (defect found by the end-to-end component `e2ereply`; `kernelRx` models that step).
+    `afpacket.Source.ReadPacketData` now skips frames that carried a tag (`dropsVlanTagged`, regenerated).  With
+    that: for every frame `f` as it is *on the wire* — tagged or not, any length — kernel receive path, installed
+    filter, cut to the capture length, tag check and processor together report exactly `replyRecord` of `f`. -/
+theorem C03_wire : dropsVlanTagged = true ∧ ∀ row ∈ wiring, ∀ n, (row.bpf, n) ∈ snapLens →
+    ∀ (vpn : Bool) (r : Range), RangeOK r = true → ∀ (st : State) (f : Bytes),
+    offloadWrap (kindOf row.cmd) vpn f = false →
+    ∃ scan, scanOf row vpn = some scan ∧
+      reportedWire dropsVlanTagged (filterOf row.bpf r) (linkOf row vpn) n scan st f =
+        replyRecord row.scanName (kindOf row.cmd) r vpn f :=
+  ⟨by decide, fun row hrow n hn vpn _ hr st f hw =>
+    Proofs.Snap.compatible_wire row (wiring_compatible row hrow) vpn hr st f (snaplen_facts.2.2 _ hn).1
+      (snaplen_facts.2.2 _ hn).2 hw⟩
+
 /-! ### non-vacuity (tests, labelled as such) -/
 
 private def synAck : Bytes :=
@@ -177,5 +193,15 @@ example : offloadWrap (.tcp true) false synAck = false ∧ offloadWrap .arp fals
 example : ReplyShape .arp range1 false paddedArp = true ∧ ReplyShape .arp range1 false (captured 64 paddedArp) = true := by
   decide
 example : replyRecord "" .arp range1 false paddedArp = some (.arp [10,0,0,7] [2,0,0,0,0,2]) := by decide
+/-- the SYN-ACK above behind an 802.1Q tag (VLAN 1791): not reply-shaped on the wire; the socket would see `synAck` -/
+private def taggedSynAck : Bytes := synAck.take 12 ++ [0x81, 0x00, 0x06, 0xff] ++ synAck.drop 12
+
+example : kernelRx .ethernet taggedSynAck = .frame true synAck := by decide
+example : ReplyShape (.tcp true) range1 false taggedSynAck = false := by decide
+example : (reportedWire false (synackBPFFilter range1) .ethernet 1518
+    (.tcp { scanType := "tcpsyn", filter := .synack, flagsFn := .empty, vpn := false }) {} taggedSynAck).isSome = true := by
+  decide
+example : reportedWire true (synackBPFFilter range1) .ethernet 1518
+    (.tcp { scanType := "tcpsyn", filter := .synack, flagsFn := .empty, vpn := false }) {} taggedSynAck = none := by decide
 
 end SxVerif.C03
